@@ -1,5 +1,7 @@
 ORE = "evaluation/result/object_result.py"
 
+NOGT = '    # There is no GT and not FP validation (= all FP)\n    if not ground_truth_objects and evaluation_task.is_fp_validation() is False:\n        return _get_fp_object_results(estimated_objects)\n\n    # There is no GT in FP validation (= unpaired estimations are ignored)\n    if not ground_truth_objects:\n        return []\n'
+
 S1_DEL = """        masked_scores = np.delete(masked_scores, est_idx, axis=0)
         masked_scores = np.delete(masked_scores, gt_idx, axis=1)
 
@@ -46,7 +48,13 @@ VARIANTS = [
     dict(name="tlr-removes-from-input", kind="break", rule="C01-inputs-untouched", edits=[(ORE,
         "                estimated_objects_.remove(est_object)\n                ground_truth_objects_.remove(gt_object)\n    return object_results",
         "                estimated_objects.remove(est_object)\n                ground_truth_objects_.remove(gt_object)\n    return object_results")]),
+    dict(name="seed4-no-gt-exit-tests-one-fp-validation-task-only", kind="break", rule="C01-emptiness", edits=[(ORE, NOGT,
+        "    if not ground_truth_objects:\n        return [] if evaluation_task == EvaluationTask.FP_VALIDATION else _get_fp_object_results(estimated_objects)\n")]),
+    dict(name="is-fp-validation-forgets-the-2d-task", kind="break", rule="C01-emptiness", edits=[("common/evaluation_task.py",
+        "        return self in (EvaluationTask.FP_VALIDATION, EvaluationTask.FP_VALIDATION2D)", "        return self in (EvaluationTask.FP_VALIDATION,)")]),
     # benign
+    dict(name="no-gt-exit-tests-both-fp-validation-tasks-by-membership", kind="benign", edits=[(ORE, NOGT,
+        "    if not ground_truth_objects:\n        if evaluation_task in (EvaluationTask.FP_VALIDATION, EvaluationTask.FP_VALIDATION2D):\n            return []\n        return _get_fp_object_results(estimated_objects)\n")]),
     dict(name="chained-deletes", kind="benign", edits=[(ORE, S1_DEL,
         "        masked_scores = np.delete(np.delete(masked_scores, est_idx, axis=0), gt_idx, axis=1)\n        score_table = np.delete(np.delete(score_table, gt_idx, axis=1), est_idx, axis=0)\n")]),
     dict(name="list-copy-via-list", kind="benign", edits=[(ORE,
